@@ -492,7 +492,7 @@ func parseStatuses(line string) [][]int {
 
 func init() {
 	props["C07"] = func(c *Ctx) {
-		c.Res.Rule = "schedules of the real PacketServer driven through the three verif hooks, a fake PacketConn and blocking handlers: actions = start Serve / release Serve parked after registration / deliver datagram (dispatched or dropped) / handler returns / start Shutdown / release Shutdown into its select / expire its context; after every action the status of every call and goroutine, panics and closed listeners are compared with the Coq step model run on the same schedule; direct checks: no panic, nil-return only when drained, context error only when the context ended, Serve reports ErrServerShutdown. Quick: random valid schedules (1-2 Serve, 0-3 datagrams, 1-2 Shutdown); thorough: exhaustive enumeration to a depth plus random longer ones. non-trivial = schedule containing a Shutdown"
+		c.Res.Rule = "schedules of the real PacketServer driven through the three verif hooks, a fake PacketConn and blocking handlers: actions = start Serve / release Serve parked after registration / deliver datagram (dispatched or dropped) / handler returns / start Shutdown / release Shutdown into its select / expire its context; after every action the status of every call and goroutine, panics and closed listeners are compared with the Coq step model run on the same schedule; direct checks: no panic, nil-return only when drained, context error only when the context ended, Serve reports ErrServerShutdown. Quick: random valid schedules (1-2 Serve, 0-3 datagrams, 1-2 Shutdown); thorough: exhaustive enumeration to a depth plus random longer ones. plus, in a child process, the schedule 'datagram received, its goroutine not yet started, Shutdown requested' (one P, Shutdown called from inside the listener's ReadFrom). non-trivial = schedule containing a Shutdown"
 		d, err := StartDriver(c.Driver)
 		if err != nil {
 			c.Note("driver: %v", err)
@@ -654,8 +654,12 @@ func init() {
 			rec(nil, nil, 0, 0, 0, map[int]bool{})
 			c.Note("exhaustive enumeration: %d schedules (1 Serve, <=1 datagram, <=2 Shutdown, depth 6)", count)
 		}
+		// a window no hook reaches: between ReadFrom returning a datagram and that datagram's goroutine starting
+		runSubScenario(c, "c07-received-before-shutdown",
+			"one P; Serve called synchronously on a listener whose 2nd ReadFrom calls Shutdown(cancelled ctx); then Shutdown(Background)",
+			"Shutdown returns nil only after every handler of a datagram received before the request has finished; no double close")
 		c.Trivial("no-shutdown")
 		c.Flush()
-		c.RequireTags("with-shutdown", "directed", "shutdown-in-register-window")
+		c.RequireTags("with-shutdown", "directed", "shutdown-in-register-window", "c07-received-before-shutdown")
 	}
 }
